@@ -24,7 +24,10 @@ RULE = ('random name-resolved action bodies (quick: 1-10 top-level statements, t
         'for each, break/continue, create (with and without variable), delete, relate/unrelate (+phrase, +using), '
         'select any/many from instances (+where with selected), select one/any/many related by 1-3 step chains '
         '(+where), return, control stop, function/bridge/class-operation/instance-operation invocations as statements '
-        'and as values with 0-3 named parameters, parameter reads, enumerators, qualified constants, in the four homes; '
+        'and as values with 0-3 named parameters, parameter reads (also of user-defined types), enumerators, qualified '
+        'constants, in the four homes; every fifth body (plus focused families) also holds event statements - generate to '
+        'class / assigner / creator / instance, create event instance, generate <event variable>, with 0-3 data items - '
+        'which are judged by the direct predicate only (no model counterpart); '
         'plus one focused family per statement kind and home; surface spelling varied (keyword case, assign/then/loop/'
         'instances of, ticked or bare phrases, redundant parentheses, comments). Non-trivial: >= 2 statements and >= 12 '
         'tokens regenerated; distinct = distinct body text per home')
@@ -33,8 +36,10 @@ ASSUMPTIONS = [
     'programs are name-resolved against the synthetic base model (every class, attribute, relationship number, '
     'function, bridge, operation, parameter, enumerator, constant exists; external-entity and class key letters are '
     'disjoint; identifiers are not OAL keywords; relationship numbers are written canonically R<n>)',
-    'events (generate / create event instance), port messages (send), structured-type members, arrays of instance '
-    'handles and bare (unqualified) constant names are outside the generated domain',
+    'event statements are generated but only judged by the direct predicate (tree comparison, text2 == text3); they have '
+    'no counterpart in the Lean model and are outside the theorems; polymorphic events (E*) are not generated',
+    'port messages (send), structured-type members, arrays of instance handles and bare (unqualified) constant names are '
+    'outside the generated domain',
     'PLY lexing/LALR parsing is exercised, not modelled: the Lean parser is a recursive-descent parser for the '
     'generator output language, tied to the real parser by the correspondence run',
 ]
@@ -42,7 +47,7 @@ TRUSTED_EXTRA = ['harness/gen_oal_action.py (program generator, base model, Pyth
                  'harness/oal_sexp.py (generic tree encoder)']
 CHUNK = 400
 CASE_TIMEOUT_S = 30
-BUDGET_S = {'quick': 75, 'thorough': 780}
+BUDGET_S = {'quick': 60, 'thorough': 780}
 
 _rig = None
 _EES = G.ee_names()
@@ -54,11 +59,11 @@ def setup(ctx):
     _rig = G.Rig()
 
 
-def _case(rng, i, home, size, feats=None, vary=True):
-    g = G.ProgramGen(rng, home, size, feats)
+def _case(rng, i, home, size, feats=None, vary=True, events=False):
+    g = G.ProgramGen(rng, home, size, feats, events)
     prog = g.program()
     return {'home': home, 'prog': prog, 'style': rng.randint(0, 2 ** 30), 'vary': vary,
-            'via_model': rng.random() < 0.15}
+            'via_model': rng.random() < 0.15, 'events': events}
 
 
 FOCUS = [['assign'], ['assign', 'array'], ['assign', 'if'], ['assign', 'while', 'break', 'continue'], ['create', 'delete'],
@@ -68,21 +73,32 @@ FOCUS = [['assign'], ['assign', 'array'], ['assign', 'if'], ['assign', 'while', 
          ['return', 'control'], ['create_nv']]
 
 
-def generate(ctx):
+EVENT_FOCUS = [['gen_evt'], ['create_evt', 'gen_pre'], ['create', 'gen_evt', 'create_evt', 'gen_pre'],
+               ['assign', 'create_evt', 'if', 'gen_pre']]
+
+
+def generate(ctx, n_quick=1500):
     rng = ctx.rng.fork('focus')
     per = ctx.pick(3, 30)
     for fi, feats in enumerate(FOCUS):
         for home in G.HOMES:
             for j in range(per):
                 yield _case(rng.fork(fi, home, j), 0, home, rng.fork(fi, home, j, 's').randint(2, 6), set(feats))
+    for fi, feats in enumerate(EVENT_FOCUS):
+        for home in G.HOMES:
+            for j in range(per):
+                yield _case(rng.fork('e', fi, home, j), 0, home, rng.fork('e', fi, home, j, 's').randint(2, 6),
+                            set(feats), events=True)
     rng = ctx.rng.fork('random')
-    n = ctx.pick(2000, 40000)
+    n = ctx.pick(n_quick, 40000)
     maxsize = ctx.pick(10, 25)
     for i in range(n):
         if ctx.out_of_time():
             return
         r = rng.fork(i)
-        yield _case(r, i, G.HOMES[i % 4], r.randint(1, maxsize), None, vary=r.random() < 0.85)
+        # every fifth body may also hold event statements (judged by D only: the Lean model has no event nodes)
+        yield _case(r, i, G.HOMES[i % 4], r.randint(1, maxsize), None, vary=r.random() < 0.85,
+                    events=(i % 5 == 4))
 
 
 def text_of(case):
@@ -142,8 +158,10 @@ def _kind_stats(prog, stats):
         if st[0] == 's':
             w = st[1].split(' ')
             k = w[0] if w[0] in ('create', 'delete', 'relate', 'unrelate', 'select', 'return', 'control', 'break',
-                                 'continue', 'bridge', 'transform') else \
+                                 'continue', 'bridge', 'transform', 'generate') else \
                 ('invoke' if '(' in w[0] else 'assign')
+            if k == 'create' and w[1] == 'event':
+                k = 'create_event'
             if k == 'select':
                 k = 'select_related' if ' related by ' in st[1] else 'select_from'
                 if ' where ' in st[1]:
@@ -167,6 +185,8 @@ def _kind_stats(prog, stats):
 
 
 def model_line(case):
+    if case.get('events'):
+        return None         # event statements are outside the Lean model (and its theorems); D still judges them
     tree1 = _rig.parse(text_of(case))
     return dumps([Sym('c05'), [_EES, _CLASSES], _enc(tree1)])
 
